@@ -404,6 +404,9 @@ impl<'s, const M: usize> Exec<'s, M> {
             self.violate("C06", "reset-panicked", "", msg);
         }
         self.just_reset = true;
+        if self.limit.is_some() {
+            self.reset_since_limit_set = true;
+        }
         // live blocks are gone by definition
         self.blocks.clear();
         self.order.clear();
@@ -572,6 +575,7 @@ impl<'s, const M: usize> Exec<'s, M> {
             self.violate("C07", "set-limit-panicked", "", msg);
         }
         self.limit = v;
+        self.reset_since_limit_set = false;
         if let Some(l) = v {
             let held_usable: usize = self.held.iter().map(|e| e.size.saturating_sub(self.k)).sum();
             if l < held_usable {
